@@ -9,7 +9,7 @@ import (
 
 func init() {
 	register(&propDef{ID: "C10", Run: runC10,
-		Explain: "Structural necessary conditions of 'a UDP datagram is processed in isolation from every other datagram', decided on SSA/CFG of /repo: (1) extent: the receive loop pairs each pooled buffer with the byte count returned by ReadFromUDP for that very buffer, and the parse loop reads the buffer only through b[:n] with that n (every other use of the buffer except handing it back to the pool is a violation); (2) free-after-use: each received buffer is passed to Free exactly once on every path, after ParseMessage returned, and is not used afterwards; a fresh buffer is taken from the pool for every datagram; (3) copy-out: nothing that aliases the reader's buffer or the pooled buffer is stored into a Message (header text is converted to string, the body is a buffer allocated for this message and filled by a copying read; no use of package unsafe); (4) discard: the handler runs only when ParseMessage succeeded, with the message it returned; (5) pool: Alloc removes the buffer it returns from the pool in the same critical section (or makes a new one), Free appends under the lock. With 1-4 what is relayed is a function of b[:n] alone - an argument from these rules, not a computed equality.",
+		Explain:    "Structural necessary conditions of 'a UDP datagram is processed in isolation from every other datagram', decided on SSA/CFG of /repo: (1) extent: the receive loop pairs each pooled buffer with the byte count returned by ReadFromUDP for that very buffer, and the parse loop reads the buffer only through b[:n] with that n (every other use of the buffer except handing it back to the pool is a violation); (2) free-after-use: each received buffer is passed to Free exactly once on every path, after ParseMessage returned, and is not used afterwards; a fresh buffer is taken from the pool for every datagram; (3) copy-out: nothing that aliases the reader's buffer or the pooled buffer is stored into a Message (header text is converted to string, the body is a buffer allocated for this message and filled by a copying read; no use of package unsafe); (4) discard: the handler runs only when ParseMessage succeeded, with the message it returned; (5) pool: Alloc removes the buffer it returns from the pool in the same critical section (or makes a new one), Free appends under the lock. With 1-4 what is relayed is a function of b[:n] alone - an argument from these rules, not a computed equality.",
 		NotDecided: "nothing beyond the stated clauses, given the documented semantics of bufio, bytes and net.UDPConn."})
 }
 
@@ -19,6 +19,7 @@ func runC10(c *Ctx) {
 	c10CopyOut(c)
 	c10Discard(c)
 	c10Pool(c)
+	c10FreshMessage(c)
 }
 
 func c10Extent(c *Ctx) {
@@ -364,4 +365,57 @@ func c10Pool(c *Ctx) {
 		c.check(n == 1, rule, "Free/store", w.pos(f.Pos()), "one store", fmt.Sprintf("%d stores to the pool in Free", n))
 	}
 	c.floor(rule, 5)
+}
+
+// c10FreshMessage: every decoded message starts from storage of its own: NewMessage returns a newly allocated Message
+// whose list and byte fields are nil or made inside NewMessage - never a copy of a package-level template, whose
+// slices would share one backing array between all messages (headers of a later datagram overwrite those of a queued
+// earlier one).
+func c10FreshMessage(c *Ctx) {
+	w := c.w
+	rule := "copy-out"
+	f := c.fn(rule, "NewMessage")
+	if f == nil {
+		return
+	}
+	good := true
+	why := ""
+	for _, r := range returnsUnder(f, nil) {
+		for _, v := range phiLeaves(r.Results[0]) {
+			al, ok := strip(v).(*ssa.Alloc)
+			if !ok {
+				good, why = false, "the result is "+w.termKey(v)+", not a new object"
+				continue
+			}
+			for _, u := range *al.Referrers() {
+				switch x := u.(type) {
+				case *ssa.Store:
+					if x.Addr == ssa.Value(al) {
+						good, why = false, "the new message is filled by copying a whole Message value ("+w.termKey(x.Val)+"): its slices share their backing arrays with the source"
+					}
+				case *ssa.FieldAddr:
+					for _, uu := range *x.Referrers() {
+						st, ok := uu.(*ssa.Store)
+						if !ok || st.Addr != ssa.Value(x) {
+							continue
+						}
+						if _, isSlice := st.Val.Type().Underlying().(*types.Slice); !isSlice {
+							continue
+						}
+						val := strip(st.Val)
+						if isNilConst(val) || isEmptyList(val) {
+							continue
+						}
+						if sl, ok := val.(*ssa.Slice); ok {
+							if a2, ok := sl.X.(*ssa.Alloc); ok && a2.Parent() == f {
+								continue // make(...) in this call
+							}
+						}
+						good, why = false, fieldName(x.X.Type(), x.Field)+" is initialised with "+w.termKey(val)+", which is not made in this call"
+					}
+				}
+			}
+		}
+	}
+	c.check(good, rule, "NewMessage/own-storage", w.pos(f.Pos()), "a new message owns its header list and body", "NewMessage does not give each message storage of its own ("+why+"): messages decoded from different datagrams share header slots, so what is relayed for one datagram contains headers of another")
 }
